@@ -30,7 +30,7 @@ CONSTANTS
   Ranks,     \* -1 = "all selected particles" (selection mode), r >= 0 = target-particle mode
   MaxLen,    \* model bound: particles per event
   MaxRej,    \* model bound: rejected rectangular trials per application
-  Chain      \* TRUE: the same configured operation may be applied to further events
+  Chain      \* TRUE: the same configured operation may be applied to further events, and configured again
 
 VARIABLES
   phase,     \* "fresh" | "ready" | "applied"
@@ -84,10 +84,12 @@ Decide(e, c) ==
 Init ==
   /\ phase = "fresh" /\ conf = NoConf /\ species = <<>> /\ out = NoResult /\ draws = 0
 
+\* an operation object may be configured again at any time: it then behaves like a fresh object with the new settings
+\* (nothing of the earlier configuration or of the events it served survives)
 Configure(c) ==
-  /\ phase = "fresh"
+  /\ phase = "fresh" \/ Chain
   /\ phase' = "ready" /\ conf' = c
-  /\ UNCHANGED <<species, out, draws>>
+  /\ species' = <<>> /\ out' = NoResult /\ draws' = 0
 
 \* k = trials rejected by the rectangular cut during this application
 Apply(e, k) ==
